@@ -160,7 +160,7 @@ def tlc(ctx, module, cfg, *, workers=1, env=None, timeout=900, on=None, heap="6g
     ctx.runs.append(dict(run=name or (module + "/" + cfg), generated=res["generated"],
                          distinct=res["distinct"], seconds=res["seconds"], rc=p.returncode))
     if p.returncode != 0 and not allow_violation:
-        raise Infra("TLC exit %s on %s/%s:\n%s" % (p.returncode, module, cfg, "\n".join(tail[-60:])))
+        raise Infra("TLC exit %s on %s/%s:\n%s" % (p.returncode, module, cfg, "\n".join(tail[-25:])))
     return res
 
 
@@ -215,7 +215,7 @@ def _check_tlc_json(v, where):
     raise Infra("bad JSON value in trace (%s)" % where)
 
 
-_STR = re.compile(r'"(?:[^"\\\\]|\\\\.)*"')
+_STR = re.compile(r'"(?:[^"\\]|\\.)*"')
 _BADNUM = re.compile(r'null|\d{10,}|\d\.\d|\d[eE][+-]?\d')
 
 
